@@ -85,6 +85,13 @@ CHECKS.update({
    note="Transformations are the harness's own; two simultaneous transformations are not explored. Annotations are added only where the builder knows the type is float.",
    design="4/C16"),
 })
+CHECKS.update({
+ "C17": dict(
+   technique="bounded-exhaustive enumeration of module programs: all visibility combinations of a depth-2 module tree x all reference forms and referrer positions, compared with an independent visibility rule (shape E)",
+   text="Every combination of `pub` on the members of a two-level module tree is combined with every reference form (qualified path, use, multi-import, wildcard, private/pub/chained/wildcard re-export, module import, relative path, from root, sibling, child and parent, shadowing by local and root definitions); the harness computes admissibility with its own Rust-like rule; an inadmissible reference must be rejected and an accepted one must return the constant of the definition its path denotes.",
+   note="Module depth 2, one function per module level, sibling modules named so that their names are string prefixes of each other. Rejecting an admissible reference is not counted as a failure.",
+   design="4/C17"),
+})
 NOT_YET = {}
 
 def main():
